@@ -43,12 +43,13 @@ def run_docx(model, data: bytes, html: bool, dup: bool):
     try:
         for f in reader.files_of_type():
             raw = etree.fromstring(reader.zipf.read(f.path))
+            intern = common.Interner()
             try:
-                case = impl_part.model_case_for_file(reader, f, raw)
+                case = impl_part.model_case_for_file(reader, f, raw, intern)
             except Exception as ex:  # noqa: BLE001
                 yield f.path, ("envfail", repr(ex)), None
                 continue
-            r = impl_part.observe_file(f)
+            r = impl_part.observe_file(f, intern)
             exn = None
             if isinstance(r, tuple):
                 r, exn = r
